@@ -120,9 +120,11 @@ def run_case(rng, f, Z, o, tier):
     with warnings.catch_warnings():
         warnings.simplefilter("ignore")
         r0 = kk_run(f, Z, o)
-        taus = _generate_time_constants(2 * np.pi * f, o["num_RC"], o["log_F_ext"])
-        ce, cr = kk.ref_design(o["test"], o["admittance"], o["add_capacitance"], o["add_inductance"], 2 * np.pi * f, taus, Z ** (-1 if o["admittance"] else 1))
-        bound = ce * ce if o["test"] == "complex-inv" else cr
+        def bound_of(f_, Z_):
+            taus_ = _generate_time_constants(2 * np.pi * f_, o["num_RC"], o["log_F_ext"])
+            ce_, cr_ = kk.ref_design(o["test"], o["admittance"], o["add_capacitance"], o["add_inductance"], 2 * np.pi * f_, taus_, Z_ ** (-1 if o["admittance"] else 1))
+            return ce_ * ce_ if o["test"] == "complex-inv" else cr_
+        bound = bound_of(f, Z)
         tol = 1e4 * EPS * bound * (1 + float(np.max(abs(r0.residuals)))) + 1e-10
         res["tolerance"] = tol
         if tol > 1e-3:
@@ -130,9 +132,17 @@ def run_case(rng, f, Z, o, tier):
         res["judged"] = True
         # the ends of the stated ranges are always exercised, the interior is sampled
         variants = [("z", 2.0 ** 20), ("z", 2.0 ** -20), ("z", 2.0 ** rng.randint(-20, 20)), ("z", 10 ** rng.uniform(-6, 6)),
-                    ("f", 2.0 ** 10), ("f", 2.0 ** -10), ("f", 2.0 ** rng.randint(-10, 10)), ("f", 10 ** rng.uniform(-3, 3)), ("order", 1.0)]
+                    ("f", 2.0 ** 20), ("f", 2.0 ** -20), ("f", 2.0 ** 10), ("f", 2.0 ** -10), ("f", 2.0 ** rng.randint(-20, 20)), ("f", 10 ** rng.uniform(-6, 6)), ("order", 1.0)]
         for variant, factor in variants:
             sb = sentinel_bound(o, f, Z)
+            # the series capacitance / inductance columns (1/w, w) are not rescaled by the implementation, so a frequency factor
+            # changes the conditioning of the design matrix: each variant is judged at the worse of the two condition numbers
+            tol_v = tol
+            if variant == "f" and (o["add_capacitance"] or o["add_inductance"] or o["test"].startswith("real")):
+                tol_v = 1e4 * EPS * max(bound, bound_of(factor * f, Z)) * (1 + float(np.max(abs(r0.residuals)))) + 1e-10
+                if tol_v > 1e-3:
+                    res["variants_not_judged"] = res.get("variants_not_judged", 0) + 1
+                    continue
             if variant == "z":
                 r1 = kk_run(f, factor * Z, o)
                 sb = max(sb, sentinel_bound(o, f, factor * Z))
@@ -141,7 +151,7 @@ def run_case(rng, f, Z, o, tier):
                 sb = max(sb, sentinel_bound(o, factor * f, Z))
             else:
                 r1 = kk_run(f[::-1].copy(), Z[::-1].copy(), o)
-            for p in compare(o, r0, r1, variant, factor, tol, sb):
+            for p in compare(o, r0, r1, variant, factor, tol_v, sb):
                 if isinstance(p, tuple) and p[0] == "known":
                     res.setdefault("known", []).append({"id": p[1], "variant": variant, "factor": factor, "change": p[2]})
                 else:
@@ -153,8 +163,8 @@ def run(rep, tier, seed, tr_errors):
     rng = random.Random(seed)
     rep.rule = ("perform_kramers_kronig_test(num_RC=n, num_F_ext_evaluations=0, log_F_ext=x) on noisy R(RQ)(RC) spectra (26 or 51 points, 0.2 % noise) "
                 "for 6 linear tests x {Z,Y} x random add_capacitance/add_inductance x num_RC 3..12 x log_F_ext in [-0.5,0.5]; each compared with the same "
-                "run on impedances scaled by 2^m (|m|<=20) and by a factor in 1e-6..1e6, frequencies scaled by 2^m (|m|<=10) and by a factor in "
-                "1e-3..1e3, and reversed point order; tolerance 1e4*eps*cond(A)*(1+max|res|); judged when tolerance <= 1e-3; 'cnls' is not "
+                "run on impedances scaled by 2^m (|m|<=20) and by a factor in 1e-6..1e6, frequencies scaled by 2^m (|m|<=20) and by a factor in "
+                "1e-6..1e6, and reversed point order; tolerance 1e4*eps*cond(A)*(1+max|res|); judged when tolerance <= 1e-3; 'cnls' is not "
                 "compared (iterative, path dependent); non-trivial = judged base run; distinct by (test, representation, options, spectrum)")
     rep.trusted += ["Coq 8.16.1 kernel; real-number axioms of the standard library (Print Assumptions)", "tools/tr_kk.py, tools/tr_formulas.py",
                     "numpy.linalg solvers return least-squares minimisers (oracle contract); DataSet ordering is C05's subject",
@@ -212,7 +222,7 @@ def run(rep, tier, seed, tr_errors):
                 if res["problems"]:
                     bad.append((o, res["problems"]))
     rep.extra["pipeline"] = {"by_test": stats, "judged": judged, "ill_conditioned_not_judged": skipped}
-    rep.oblige("pipeline: residuals and chi-squared invariant, parameters rescale", not bad and judged > 0, "%d judged base runs x 9 variants, %d not judged, %d with differences" % (judged, skipped, len(bad)))
+    rep.oblige("pipeline: residuals and chi-squared invariant, parameters rescale", not bad and judged > 0, "%d judged base runs x 11 variants (frequency variants judged at the worse of the two condition numbers), %d not judged, %d with differences" % (judged, skipped, len(bad)))
     for n_, (o, probs) in enumerate(bad[:5]):
         inp = dict(o)
         inp["differences"] = probs[:4]
